@@ -297,22 +297,22 @@ impl Constant {
         if self.bits() != rhs.bits() {
             Err(Error::Sort)
         } else {
-            let r = rhs
+            // shifting by the width or more leaves only copies of the sign bit
+            let bits = rhs
                 .value
                 .to_usize()
-                .map(|bits| {
-                    let value = self.value() >> bits;
-                    let msb = self.value() >> (self.bits - 1);
-                    if msb.is_zero() {
-                        value
-                    } else {
-                        let all_one = (BigUint::from_u64(1).unwrap() << self.bits)
-                            - BigUint::from_u64(1).unwrap();
-                        let fill = all_one << (self.bits - bits);
-                        fill | value
-                    }
-                })
-                .unwrap_or_else(|| BigUint::from_u64(0).unwrap());
+                .map(|bits| bits.min(self.bits))
+                .unwrap_or(self.bits);
+            let value = self.value() >> bits;
+            let msb = self.value() >> (self.bits - 1);
+            let r = if msb.is_zero() {
+                value
+            } else {
+                let all_one =
+                    (BigUint::from_u64(1).unwrap() << self.bits) - BigUint::from_u64(1).unwrap();
+                let fill = all_one << (self.bits - bits);
+                fill | value
+            };
             Ok(Constant::new_big(r, self.bits))
         }
     }
